@@ -349,10 +349,14 @@ pub fn classify(
             allowed.insert(0);
             allowed.insert(1);
         }
-        if in_window && blast.contains(&e.k) {
+        if in_window {
+            // a partial directory in the live list: its rows are read as garbage or twice,
+            // or the reader gives up and events of that type are not returned at all
             let extra: Vec<usize> = allowed.iter().map(|a| a + 1).collect();
             allowed.extend(extra);
+            allowed.insert(0);
         }
+        let _ = blast;
         let got = qm.get(&e.k).copied().unwrap_or(0);
         // the selection path drops repeated event ids, so a duplicate may show as 1 here
         let ok = allowed.contains(&got) || (got == 1 && allowed.iter().any(|a| *a >= 1));
@@ -360,7 +364,7 @@ pub fn classify(
             return Err(format!("k={} visible {got} times; model allows {allowed:?}", e.k));
         }
         if got == 0 && !is_inflight {
-            tags.insert("KF-P1-wal-unlinked".to_string());
+            tags.insert(if in_window && cands.iter().all(|m| vis(m, e.k) > 0) { "KF-orphan-dir".to_string() } else { "KF-P1-wal-unlinked".to_string() });
         }
         if got > 1 {
             tags.insert(if in_window { "KF-window-dup".to_string() } else { "KF-stale-wal-dup".to_string() });
@@ -377,7 +381,7 @@ pub fn classify(
             tags.insert(if in_window { "KF-window-dup".to_string() } else { "KF-stale-wal-dup".to_string() });
         }
         if rgot == 0 && !is_inflight {
-            tags.insert("KF-P1-wal-unlinked".to_string());
+            tags.insert(if in_window && cands.iter().all(|m| vis(m, e.k) > 0) { "KF-orphan-dir".to_string() } else { "KF-P1-wal-unlinked".to_string() });
         }
     }
     for (k, n) in &qm {
@@ -389,7 +393,7 @@ pub fn classify(
         if let Some(e) = events.iter().find(|e| e.k == *k) {
             for (ty, c, s) in rows {
                 if *ty != e.typ || *c != e.ctx || *s != format!("v{}", e.k) {
-                    if in_window && blast.contains(k) {
+                    if in_window {
                         tags.insert("KF-orphan-dir".to_string());
                     } else {
                         return Err(format!("k={k} came back as type={ty} ctx={c} s={s}"));
@@ -404,7 +408,7 @@ pub fn classify(
         let mut h = hi.get(t).copied().unwrap_or(0);
         if in_window {
             // rows of a partially written directory are counted too
-            h += blast.len();
+            h += events.len();
         }
         if got < l || got > h {
             return Err(format!("COUNT {t} = {got}; model allows {l}..={h}"));
@@ -414,7 +418,7 @@ pub fn classify(
             tags.insert(if in_window { "KF-window-dup".to_string() } else { "KF-stale-wal-dup".to_string() });
         }
         if got < spec {
-            tags.insert("KF-P1-wal-unlinked".to_string());
+            tags.insert(if in_window { "KF-orphan-dir".to_string() } else { "KF-P1-wal-unlinked".to_string() });
         }
     }
     let _ = garbage_types;
@@ -605,6 +609,7 @@ pub fn run_history(
                 stats.lock().unwrap().machinery.push(format!("copy snapshot: {e}"));
                 continue;
             }
+            let orphan_dirs = crate::fsmon::orphans(&rdir.join("db"), cfg.shards);
             let static_v = crate::fsmon::static_check(&rdir.join("db"), cfg.shards);
             for v in static_v {
                 monitor_out.lock().unwrap().push((history.to_vec(), format!("crash@{}:{} {}", s.kind, rel(&s.path), v)));
@@ -634,7 +639,9 @@ pub fn run_history(
                                 cands.push(m);
                             }
                             let phase = phase_of(last, s.seq);
-                            let in_window = st.compacts || (st.flushes && phase.iter().any(|p| p.contains(":flush.")));
+                            // the orphan-directory defect needs an orphan directory in the crash tree
+                            let _ = phase;
+                            let in_window = !orphan_dirs.is_empty();
                             match classify(&o, acked, inflight.as_ref(), &cands, true, &st.blast, in_window) {
                                 Ok(t) => known = t.into_iter().collect(),
                                 Err(e) => violation = Some(e),
